@@ -51,20 +51,15 @@ structure Config where
   owner : Nat       -- 0 await (connect, start); 1 drop; 2 connect, then destroy without start
   stopper : Bool    -- is there a thread T2 requesting stop on the awaiting receiver's source
   late : Bool := false   -- T2 first waits until T1 has finished (stop after the result is available)
+  detached : Bool := false   -- spawn_detached instead of spawn_future: there is no future at all
 
-/-- frame kinds: 0 connect, 1 start, 2 the future's continuation, 3 abandon() (the stop callback),
-    4 request_stop on the receiver's source, 5 drop(), 6 destroy a connected future, 7 the spawned
-    operation's completion.  `arg` holds the frame's locals: `lst + 8 * own`. -/
-structure Frame where
-  kind : Nat
-  arg : Nat
-  pc : Nat
-  deriving DecidableEq, Repr
-
-structure Thr where
-  ip : Nat
-  stack : List Frame
-  deriving DecidableEq, Repr
+/-- Call frames.  Frame kinds: 0 connect, 1 start, 2 the future's continuation, 3 abandon() (the
+    stop callback), 4 request_stop on the receiver's source, 5 drop(), 6 destroy a connected future,
+    7 the spawned operation's completion.  `arg` holds the frame's locals: `lst + 8 * own`.
+    A frame is the number `1 + kind + 8 * pc + 64 * arg` (< 1024) and a thread's call stack is the
+    base-1024 numeral of its frames, top frame in the lowest digit, 0 = empty.  (Everything in the
+    state is a `Nat`/`Bool` so that Lean's kernel evaluates steps with its built-in arithmetic.) -/
+def fcode (kind arg pc : Nat) : Nat := 1 + kind + 8 * pc + 64 * arg
 
 structure St where
   st : Nat            -- state_
@@ -84,44 +79,79 @@ structure St where
   uaf : Bool          -- history: the heap block was accessed after it was freed
   term : Bool         -- history: std::terminate() was reached
   bad : Nat           -- history: 0 ok, 2 block deleted twice
-  thrs : List Thr
-  deriving DecidableEq, Repr
+  ip0 : Nat           -- T0: index of the next call of its script (7 = killed by std::terminate)
+  stk0 : Nat          -- T0: call stack
+  ip1 : Nat
+  stk1 : Nat
+  ip2 : Nat
+  stk2 : Nat
+  deriving Repr
 
-def scriptOf (cfg : Config) (t : Nat) : List Nat :=
-  match t with
-  | 0 => if cfg.owner = 0 then [0, 1] else if cfg.owner = 1 then [5] else [0, 6]
-  | 1 => [7]
-  | _ => [4]
+/-- Boolean equality test, field by field (`Nat.beq` / Bool `==`, which Lean's kernel evaluates
+    directly); `DecidableEq St` is derived from it because the instance produced by
+    `deriving DecidableEq` is an order of magnitude slower under kernel evaluation. -/
+def St.beq (a b : St) : Bool :=
+  a.st == b.st && a.evt == b.evt && a.opStop == b.opStop && a.fStop == b.fStop && a.cbReg == b.cbReg &&
+  a.cbRun == b.cbRun && a.cbInline == b.cbInline && a.freed == b.freed && a.resC == b.resC &&
+  a.resD == b.resD && a.out == b.out && a.outN == b.outN && a.abandonWon == b.abandonWon &&
+  a.dropSawInit == b.dropSawInit && a.uaf == b.uaf && a.term == b.term && a.bad == b.bad &&
+  a.ip0 == b.ip0 && a.stk0 == b.stk0 && a.ip1 == b.ip1 && a.stk1 == b.stk1 && a.ip2 == b.ip2 &&
+  a.stk2 == b.stk2
 
-def nThreads (cfg : Config) : Nat := if cfg.stopper then 3 else 2
+theorem St.beq_iff (a b : St) : a.beq b = true ↔ a = b := by
+  cases a; cases b
+  simp only [St.beq, Bool.and_eq_true, beq_iff_eq, St.mk.injEq]
+  constructor
+  · intro h; simp_all
+  · intro h; simp_all
+
+instance : DecidableEq St := fun a b =>
+  if h : a.beq b = true then isTrue ((St.beq_iff a b).mp h)
+  else isFalse (fun e => h ((St.beq_iff a b).mpr e))
+
+/-- the `i`-th call (a frame kind) of thread `t`'s script -/
+def callAt (cfg : Config) (t i : Nat) : Option Nat :=
+  if cfg.detached then (if t = 1 && i = 0 then some 0 else none)
+  else if t = 0 then
+    (if cfg.owner = 0 then (if i = 0 then some 0 else if i = 1 then some 1 else none)
+     else if cfg.owner = 1 then (if i = 0 then some 5 else none)
+     else (if i = 0 then some 0 else if i = 1 then some 6 else none))
+  else if t = 1 then (if i = 0 then some 7 else none)
+  else (if i = 0 then some 4 else none)
+
+def scriptLen (cfg : Config) (t : Nat) : Nat :=
+  if cfg.detached then (if t = 1 then 1 else 0)
+  else if t = 0 then (if cfg.owner = 1 then 1 else 2) else 1
 
 def init (cfg : Config) : St :=
   { st := 0, evt := 0, opStop := false, fStop := false, cbReg := false, cbRun := 0, cbInline := false,
     freed := 0, resC := 0, resD := 0, out := 0, outN := 0, abandonWon := false, dropSawInit := false,
     uaf := false, term := false, bad := 0,
-    thrs := (List.range (nThreads cfg)).map (fun _ => ⟨0, []⟩) }
+    ip0 := 0, stk0 := 0, ip1 := 0, stk1 := 0,
+    ip2 := if cfg.stopper && !cfg.detached then 0 else 1,    -- without a stopper T2's script is already finished
+    stk2 := 0 }
 
-def getThr (s : St) (t : Nat) : Thr := s.thrs.getD t ⟨0, []⟩
-def setThr (s : St) (t : Nat) (x : Thr) : St := { s with thrs := s.thrs.set t x }
+def getIp (s : St) (t : Nat) : Nat := if t = 0 then s.ip0 else if t = 1 then s.ip1 else s.ip2
+def getStk (s : St) (t : Nat) : Nat := if t = 0 then s.stk0 else if t = 1 then s.stk1 else s.stk2
+def setIp (s : St) (t v : Nat) : St :=
+  if t = 0 then { s with ip0 := v } else if t = 1 then { s with ip1 := v } else { s with ip2 := v }
+def setStk (s : St) (t v : Nat) : St :=
+  if t = 0 then { s with stk0 := v } else if t = 1 then { s with stk1 := v } else { s with stk2 := v }
 
-def goto (s : St) (t : Nat) (pc : Nat) : St :=
-  let th := getThr s t
-  match th.stack with
-  | [] => s
-  | f :: fs => setThr s t { th with stack := { f with pc := pc } :: fs }
+/-- replace pc (and arg) of the top frame -/
 def gotoA (s : St) (t : Nat) (arg pc : Nat) : St :=
-  let th := getThr s t
-  match th.stack with
-  | [] => s
-  | f :: fs => setThr s t { th with stack := { f with arg := arg, pc := pc } :: fs }
-def push (s : St) (t : Nat) (f : Frame) : St :=
-  let th := getThr s t
-  setThr s t { th with stack := f :: th.stack }
-def pop (s : St) (t : Nat) : St :=
-  let th := getThr s t
-  setThr s t { th with stack := th.stack.tail }
+  let k := getStk s t
+  let top := k % 1024 - 1
+  setStk s t (k / 1024 * 1024 + fcode (top % 8) arg pc)
+def goto (s : St) (t : Nat) (pc : Nat) : St :=
+  let k := getStk s t
+  let top := k % 1024 - 1
+  setStk s t (k / 1024 * 1024 + fcode (top % 8) (top / 64) pc)
+def push (s : St) (t : Nat) (kind : Nat) : St := setStk s t (getStk s t * 1024 + fcode kind 0 0)
+def pop (s : St) (t : Nat) : St := setStk s t (getStk s t / 1024)
 /-- the thread dies (std::terminate): no further steps; counts as finished -/
-def kill (s : St) (t : Nat) : St := setThr s t ⟨9, []⟩
+def kill (s : St) (t : Nat) : St := setIp (setStk s t 0) t 7
+def threadDone (cfg : Config) (s : St) (t : Nat) : Bool := getStk s t = 0 && getIp s t ≥ scriptLen cfg t
 
 /-- every access to the heap block goes through `touch` -/
 def touch (s : St) : St := if s.freed > 0 then { s with uaf := true } else s
@@ -138,7 +168,7 @@ def evtSet (s : St) (t : Nat) (pcAfter : Nat) : St :=
   let s1 := touch s
   let old := s1.evt
   let s2 := goto { s1 with evt := 2 } t pcAfter
-  if old = 1 then push s2 t ⟨2, 0, 0⟩ else s2
+  if old = 1 then push s2 t 2 else s2
 
 /-- destructor of the abandon stop callback; `none` = has to wait (callback running elsewhere) -/
 def deregister (s : St) (t : Nat) : Option St :=
@@ -154,26 +184,26 @@ def tau (t : Nat) : Lbl := (t, none)
 
 def kindName (k : Nat) : String := if k = 0 then "value" else if k = 1 then "error" else "done"
 
-/-- One step of the top frame `f` of thread `t`. -/
-def stepFrame (cfg : Config) (s : St) (t : Nat) (f : Frame) : Option (Lbl × St) :=
-    let lst := f.arg % 8
-    let own := f.arg / 8
-    match f.kind, f.pc with
+/-- One step of the top frame (`kind`, `arg`, `pc`) of thread `t`. -/
+def stepFrame (cfg : Config) (s : St) (t : Nat) (kind arg pc : Nat) : Option (Lbl × St) :=
+    let lst := arg % 8
+    let own := arg / 8
+    match kind, pc with
     -- ---------------- connect(future, receiver): registers the abandon stop callback
     | 0, 0 =>
       some (ev t "fut.connect.begin", goto s t 1)
     | 0, 1 =>
-      if s.fStop then some (tau t, push (goto { s with cbInline := true } t 2) t ⟨3, 0, 0⟩)
+      if s.fStop then some (tau t, push (goto { s with cbInline := true } t 2) t 3)
       else some (tau t, goto { s with cbReg := true } t 2)
     | 0, 2 => some (ev t "fut.connect.end", pop s t)
     -- ---------------- start(op): evt_.async_wait() -> start_or_wait
     | 1, 0 =>   -- load evt_.state_
       let s1 := touch s
-      if s1.evt = 2 then some (tau t, push (goto s1 t 3) t ⟨2, 0, 0⟩) else some (tau t, goto s1 t 1)
+      if s1.evt = 2 then some (tau t, push (goto s1 t 3) t 2) else some (tau t, goto s1 t 1)
     | 1, 1 =>   -- CAS push; on failure the event has been set meanwhile
       let s1 := touch s
       if s1.evt = 0 then some (tau t, goto { s1 with evt := 1 } t 3)
-      else some (tau t, push (goto s1 t 3) t ⟨2, 0, 0⟩)
+      else some (tau t, push (goto s1 t 3) t 2)
     | 1, 3 => some (ev t "fut.started", pop s t)
     -- ---------------- the future's continuation (let_value successor) on thread t
     | 2, 0 =>   -- state = state_.load()
@@ -204,15 +234,15 @@ def stepFrame (cfg : Config) (s : St) (t : Nat) (f : Frame) : Option (Lbl × St)
       let s1 := touch s
       let old := s1.evt
       let s2 := pop { s1 with evt := 2 } t
-      some (tau t, if old = 1 then push s2 t ⟨2, 0, 0⟩ else s2)
+      some (tau t, if old = 1 then push s2 t 2 else s2)
     -- ---------------- request_stop() on the awaiting receiver's stop source
     | 4, 0 =>
-      if cfg.late && !((getThr s 1).stack.isEmpty && (getThr s 1).ip ≥ 1) then none   -- rt::join(T1) first
+      if cfg.late && !threadDone cfg s 1 then none   -- rt::join(T1) first
       else some (ev t "stop.begin", goto s t 1)
     | 4, 1 =>
       if s.fStop then some (tau t, goto s t 3)
       else if s.cbReg then
-        some (tau t, push (goto { s with fStop := true, cbReg := false, cbRun := t + 1 } t 2) t ⟨3, 0, 0⟩)
+        some (tau t, push (goto { s with fStop := true, cbReg := false, cbRun := t + 1 } t 2) t 3)
       else some (tau t, goto { s with fStop := true } t 3)
     | 4, 2 => some (tau t, goto { s with cbRun := 0 } t 3)   -- callback returned: callbackCompleted_
     | 4, 3 => some (ev t "stop.end", pop s t)
@@ -237,8 +267,7 @@ def stepFrame (cfg : Config) (s : St) (t : Nat) (f : Frame) : Option (Lbl × St)
       match deregister s t with
       | none => none
       | some s1 =>
-        let th1 := getThr s1 t
-        some (tau t, setThr s1 t { th1 with stack := (⟨5, 0, 1⟩ : Frame) :: th1.stack.tail })
+        some (tau t, setStk s1 t (getStk s1 t / 1024 * 1024 + fcode 5 0 1))
     -- ---------------- the spawned operation completes (receiver -> complete(desired, func))
     | 7, 0 =>
       let s1 := touch s
@@ -258,27 +287,40 @@ def stepFrame (cfg : Config) (s : St) (t : Nat) (f : Frame) : Option (Lbl × St)
     | 7, 6 => some (ev t "op.completed", pop s t)
     | _, _ => none
 
+/-- spawn_detached: the completing thread deletes the operation state on value/done; the receiver's
+    `set_error` is `std::terminate()`. -/
+def stepDetached (cfg : Config) (s : St) (t : Nat) (pc : Nat) : Option (Lbl × St) :=
+  if pc = 0 then some (ev t s!"op.complete {kindName cfg.kind} stop=0", goto s t 1)
+  else if pc = 1 then
+    (if cfg.kind = 1 then some (ev t "terminate", kill { s with term := true } t)
+     else some (ev t "block.free", goto (deleteBlock s sComplete) t 2))
+  else if pc = 2 then some (ev t "op.completed", pop s t)
+  else none
+
 /-- One step of thread `t`; `none` = disabled (spinning, finished or dead).  With an empty stack
     the next call of the script is entered and its first step taken. -/
 def stepThr (cfg : Config) (s : St) (t : Nat) : Option (Lbl × St) :=
-  let th := getThr s t
-  match th.stack with
-  | [] =>
-    match (scriptOf cfg t)[th.ip]? with
+  let k := getStk s t
+  if k = 0 then
+    match callAt cfg t (getIp s t) with
     | none => none
-    | some k => stepFrame cfg (push (setThr s t { th with ip := th.ip + 1 }) t ⟨k, 0, 0⟩) t ⟨k, 0, 0⟩
-  | f :: _ => stepFrame cfg s t f
+    | some kind =>
+      let s1 := push (setIp s t (getIp s t + 1)) t kind
+      if cfg.detached then stepDetached cfg s1 t 0 else stepFrame cfg s1 t kind 0 0
+  else
+    let top := k % 1024 - 1
+    if cfg.detached then stepDetached cfg s t (top / 8 % 8)
+    else stepFrame cfg s t (top % 8) (top / 64) (top / 8 % 8)
 
 def sys (cfg : Config) : LSys St Lbl where
   init := init cfg
-  next s := (List.range s.thrs.length).filterMap (fun t => stepThr cfg s t)
+  next s := [0, 1, 2].filterMap (fun t => stepThr cfg s t)
 
 def obsOf (l : Lbl) : Option String := l.2.map (fun txt => s!"T{l.1} {txt}")
 
 /-- every thread has run its script to the end (a thread killed by `std::terminate` counts) -/
 def final (cfg : Config) (s : St) : Bool :=
-  (List.range s.thrs.length).all (fun u =>
-    (getThr s u).stack.isEmpty && (getThr s u).ip ≥ (scriptOf cfg u).length)
+  threadDone cfg s 0 && threadDone cfg s 1 && threadDone cfg s 2
 
 /-- what the future's receiver must get: done iff the operation completed with done or the future
     was cancelled before the result was available; otherwise the operation's value / error -/
@@ -303,46 +345,78 @@ def safeRest (cfg : Config) (s : St) : Bool :=
   ((sys cfg).next s |>.isEmpty |> fun dead => !dead || final cfg s) &&
   (!final cfg s || s.term ||
     (s.freed = 1 && s.resD = s.resC &&
-     (if cfg.owner = 0 then s.outN = 1 && s.out = expectedOut cfg s && (!cfg.late || s.out = cfg.kind + 1)
+     (if cfg.detached then s.outN = 0
+      else if cfg.owner = 0 then s.outN = 1 && s.out = expectedOut cfg s && (!cfg.late || s.out = cfg.kind + 1)
       else s.outN = 0) &&
      (s.opStop == (s.abandonWon || s.dropSawInit))))
 
 /-- The property C09 as a state predicate. -/
-def safe (cfg : Config) (s : St) : Bool := !s.uaf && !s.term && safeRest cfg s
+def safe (cfg : Config) (s : St) : Bool :=
+  !s.uaf && (!s.term || (cfg.detached && cfg.kind = 1)) && safeRest cfg s &&
+  (!(cfg.detached && cfg.kind = 1 && final cfg s) || s.term)
+
+/-- `safe` without the clause "std::terminate() is never reached" (used for the configuration in
+    which the code as it is does reach it) -/
+def safeModTerm (cfg : Config) (s : St) : Bool := !s.uaf && safeRest cfg s
+/-- `safe` without the clause "the block is never used after deletion" (used for the
+    configurations in which the code as it is does use it after deletion) -/
+def safeModUaf (cfg : Config) (s : St) : Bool := !s.term && safeRest cfg s
+
+/-- helper for witnesses: a schedule given as a list of choices reaches a state satisfying `p` -/
+theorem reach_of_run (cfg : Config) (cs : List Nat) (p : St → Bool)
+    (h : (match runChoices (sys cfg) (sys cfg).init cs with
+          | some (_, s) => p s | none => false) = true) :
+    ∃ s, Reach (sys cfg) s ∧ p s = true := by
+  cases hr : runChoices (sys cfg) (sys cfg).init cs with
+  | none => simp [hr] at h
+  | some q =>
+    obtain ⟨ls, s⟩ := q
+    simp only [hr] at h
+    exact ⟨s, runChoices_reach _ _ _ _ _ Reach.init hr, h⟩
 
 /-! ### coding (untrusted; checked on the fly by `checkClosed`) -/
 
 def b2n (b : Bool) : Nat := if b then 1 else 0
 
-def encThr (t : Thr) : List Nat := t.ip :: t.stack.length :: t.stack.flatMap (fun f => [f.kind, f.arg, f.pc])
+/-- mixed-radix numeral of all fields (radices 8,4,4,2^8,4,4,4,4,4,4,8,8,8,2^30,2^30,-) -/
+def encSt (s : St) : Nat :=
+  let bools := b2n s.opStop + 2 * b2n s.fStop + 4 * b2n s.cbReg + 8 * b2n s.cbInline +
+    16 * b2n s.abandonWon + 32 * b2n s.dropSawInit + 64 * b2n s.uaf + 128 * b2n s.term
+  s.st + 8 * (s.evt + 4 * (s.cbRun + 4 * (bools + 256 * (s.freed + 4 * (s.resC + 4 * (s.resD + 4 *
+    (s.out + 4 * (s.outN + 4 * (s.bad + 4 * (s.ip0 + 8 * (s.ip1 + 8 * (s.ip2 + 8 *
+    (s.stk0 + 1073741824 * (s.stk1 + 1073741824 * s.stk2))))))))))))))
 
-def encSt (s : St) : List Nat :=
-  [s.st, s.evt, b2n s.opStop, b2n s.fStop, b2n s.cbReg, s.cbRun, b2n s.cbInline, s.freed, s.resC, s.resD,
-   s.out, s.outN, b2n s.abandonWon, b2n s.dropSawInit, b2n s.uaf, b2n s.term, s.bad,
-   s.thrs.length] ++ s.thrs.flatMap encThr
+def decStAux (n : Nat) : St :=
+  let st := n % 8; let n := n / 8
+  let evt := n % 4; let n := n / 4
+  let cbRun := n % 4; let n := n / 4
+  let bools := n % 256; let n := n / 256
+  let freed := n % 4; let n := n / 4
+  let resC := n % 4; let n := n / 4
+  let resD := n % 4; let n := n / 4
+  let out := n % 4; let n := n / 4
+  let outN := n % 4; let n := n / 4
+  let bad := n % 4; let n := n / 4
+  let ip0 := n % 8; let n := n / 8
+  let ip1 := n % 8; let n := n / 8
+  let ip2 := n % 8; let n := n / 8
+  let stk0 := n % 1073741824; let n := n / 1073741824
+  let stk1 := n % 1073741824; let n := n / 1073741824
+  { st := st, evt := evt, opStop := bools % 2 == 1, fStop := bools / 2 % 2 == 1, cbReg := bools / 4 % 2 == 1,
+    cbRun := cbRun, cbInline := bools / 8 % 2 == 1, freed := freed, resC := resC, resD := resD, out := out,
+    outN := outN, abandonWon := bools / 16 % 2 == 1, dropSawInit := bools / 32 % 2 == 1,
+    uaf := bools / 64 % 2 == 1, term := bools / 128 % 2 == 1, bad := bad,
+    ip0 := ip0, stk0 := stk0, ip1 := ip1, stk1 := stk1, ip2 := ip2, stk2 := n }
 
-def decFrames : Nat → List Nat → List Frame × List Nat
-  | 0, r => ([], r)
-  | n+1, k :: a :: p :: r => let (fs, r') := decFrames n r; (⟨k, a, p⟩ :: fs, r')
-  | _, r => ([], r)
+/-- `decStAux` behind a case split on the code: Lean's kernel evaluates the scrutinee ONCE, to a
+    literal, and hands that literal to the branch — otherwise the (lazily evaluated) expression that
+    produced the code is re-evaluated at every field access. -/
+def decSt (n : Nat) : St :=
+  match n with
+  | 0 => decStAux 0
+  | k + 1 => decStAux (k + 1)
 
-def decThrs : Nat → List Nat → List Thr × List Nat
-  | 0, r => ([], r)
-  | n+1, ip :: len :: r =>
-    let (fs, r1) := decFrames len r
-    let (ts, r2) := decThrs n r1
-    (⟨ip, fs⟩ :: ts, r2)
-  | _, r => ([], r)
-
-def decSt (l : List Nat) : St :=
-  match l with
-  | a :: b :: c :: d :: e :: f :: g :: h :: i :: j :: k :: m :: n :: o :: q :: r :: u :: nt :: rest =>
-    let (ths, _) := decThrs nt rest
-    ⟨a, b, c == 1, d == 1, e == 1, f, g == 1, h, i, j, k, m, n == 1, o == 1, q == 1, r == 1, u, ths⟩
-  | _ => ⟨0, 0, false, false, false, 0, false, 0, 0, 0, 0, 0, false, false, false, false, 99, []⟩
-
-def coded : Coded St :=
-  { enc := fun s => packNats 16 (encSt s), dec := fun n => decSt (unpackNats 16 120 n), M := 4093, W := 320 }
+def coded : Coded St := { enc := encSt, dec := decSt, M := 4093, W := 144 }
 
 /-! ### the scenario configurations (mirrored one-to-one by harness/rt/scn_c09.cpp) -/
 
@@ -360,10 +434,19 @@ def cfgDropDone : Config := { kind := 2, owner := 1, stopper := false }
 def cfgConnectDropValue : Config := { kind := 0, owner := 2, stopper := false }
 def cfgConnectStopDropValue : Config := { kind := 0, owner := 2, stopper := true }
 
+def cfgDetachedValue : Config := { kind := 0, owner := 1, stopper := false, detached := true }
+def cfgDetachedDone : Config := { kind := 2, owner := 1, stopper := false, detached := true }
+def cfgDetachedError : Config := { kind := 1, owner := 1, stopper := false, detached := true }
+
 def configs : List (String × Config) :=
   [("await_value", cfgAwaitValue), ("await_error", cfgAwaitError), ("await_done", cfgAwaitDone),
    ("cancel_value", cfgCancelValue), ("cancel_error", cfgCancelError), ("cancel_done", cfgCancelDone), ("late_cancel_value", cfgLateCancelValue),
    ("drop_value", cfgDropValue), ("drop_error", cfgDropError), ("drop_done", cfgDropDone),
-   ("connect_drop_value", cfgConnectDropValue), ("connect_stop_drop_value", cfgConnectStopDropValue)]
+   ("connect_drop_value", cfgConnectDropValue), ("connect_stop_drop_value", cfgConnectStopDropValue),
+   ("detached_value", cfgDetachedValue), ("detached_done", cfgDetachedDone), ("detached_error", cfgDetachedError),
+   -- the same usages through v1::async_scope, where its extra attach layer does not change the
+   -- observable behaviour (cancellation through v1 is NOT modelled: attach completes early with done)
+   ("v1_await_value", cfgAwaitValue), ("v1_await_error", cfgAwaitError), ("v1_drop_value", cfgDropValue),
+   ("v1_drop_done", cfgDropDone), ("v1_detached_value", cfgDetachedValue)]
 
 end Unifex.Proto.SpawnFuture
